@@ -62,8 +62,14 @@ def wellformed(t, role_sender):
     return R.byte(t) + body
 
 
-def shapes(t, role_sender):
+GEX_BODIES = {30: R.u32(2048), 34: R.u32(2048) + R.u32(2048) + R.u32(2048), 32: R.mpint(2 ** 1000 + 12345),
+              31: R.mpint(2 ** 2047 + 1) + R.mpint(2), 33: R.string(bytes(51)) + R.mpint(2 ** 1000) + R.string(bytes(83))}
+
+
+def shapes(t, role_sender, gex=False):
     w = wellformed(t, role_sender)
+    if gex and t in GEX_BODIES:
+        w = R.byte(t) + GEX_BODIES[t]       # the same numbers mean other messages in a group exchange
     out = [('ok', w)]
     if len(w) > 1:
         out.append(('trunc', w[:-1]))
@@ -133,20 +139,27 @@ def run_server_kbd(pos, payloads, strict, **kw):
     return run_server(pos, payloads, strict, auth='kbdint', **kw)
 
 
+def run_server_gex(pos, payloads, strict, **kw):
+    """the first exchange is a Diffie-Hellman group exchange (REQUEST 34 -> GROUP 31, INIT 32 -> REPLY 33): more
+    steps, each calling for exactly one message"""
+    return run_server(pos, payloads, strict, kex='diffie-hellman-group-exchange-sha256', **kw)
+
+
 def run_server_rekey(pos, payloads, strict, **kw):
     """the same dialogue with a complete re-exchange (started by the peer) between login and the first channel"""
     return run_server(pos, payloads, strict, rekey=True, **kw)
 
 
-def run_server(pos, payloads, strict, rekey=False, no_seq_reset=False, seed=0, auth='password'):
+def run_server(pos, payloads, strict, rekey=False, no_seq_reset=False, seed=0, auth='password', kex=None):
     env = {}
 
     def on_start(sess):
         sess.chan.write(b'result')
         sess.chan.exit(3)
     env['session_factory'] = lambda: P.RecSession('srv', on_start=on_start)
-    w = H.SrvWorld(seed=seed, env=env, server_factory=AsyncPwServer if auth == 'password' else KbdServer, sopts=dict(login_timeout=120))
-    rp = InjectingPeer('client', strict=strict)
+    w = H.SrvWorld(seed=seed, env=env, server_factory=AsyncPwServer if auth == 'password' else KbdServer,
+                   sopts=dict(login_timeout=120, **({'kex_algs': [kex]} if kex else {})))
+    rp = InjectingPeer('client', strict=strict, **({'kex': (kex,)} if kex else {}))
     rp.rand = w.rp.rand
     w.rp = rp
     w.proto = R.RefProtocol(rp)
@@ -217,6 +230,7 @@ def run_server(pos, payloads, strict, rekey=False, no_seq_reset=False, seed=0, a
             'unimplemented': rp.types().count(R.MSG_UNIMPLEMENTED),
             'auth_replies': (rp.types().count(R.MSG_USERAUTH_FAILURE), rp.types().count(R.MSG_USERAUTH_SUCCESS), rp.types().count(60)),
             'service_accepts': rp.types().count(6),
+            'kex_counts': {t: rp.types().count(t) for t in set(rp.types()) if 20 <= t <= 49},
             'ref_error': obs.get('ref_error') or (str(w.proto.error) if w.proto.error else None),
             'loop_exc': [repr(c.get('exception') or c.get('message')) for c in w.loop.unretrieved()],
             'kex_done': rp.kex_done,
@@ -355,7 +369,7 @@ def _method(p):
 
 
 # ------------------------------------------------------------------ oracle
-INITIAL_KEX = {'pre-version', (20, 1), (30, 1), (31, 1), (21, 1)}
+INITIAL_KEX = {'pre-version', (20, 1), (30, 1), (31, 1), (21, 1), (34, 1), (32, 1)}
 REKEY_KEX = {(30, 2), (31, 2), (21, 2)}
 
 
@@ -440,6 +454,13 @@ def judge(role, pos, t, shape, strict, obs, base):
             v.append(('ignored-message-changed-session',
                       'type %d must be ignored but the session differs: %s' % (t, _diff(obs, base))))
         return v
+    if pos_t in INITIAL_KEX and pos_t != 'pre-version' and 'kex_counts' in obs:
+        # whatever happens to the connection later, the endpoint must not have answered the out-of-phase message
+        # with a further step of the exchange (a second GROUP, a REPLY, NEWKEYS)
+        more = {t: n for t, n in obs['kex_counts'].items() if n > base.get('kex_counts', {}).get(t, 0)}
+        if more:
+            v.append(('took-effect', 'out-of-phase type %d (%s) at %r was answered with further key exchange messages %r'
+                      % (t, shape, pos, more)))
     if strict and pos_t in INITIAL_KEX and pos_t != 'pre-version':
         if not obs['ended']:
             v.append(('strict-kex-not-fatal', 'type %d %s during the initial exchange with strict '
@@ -468,7 +489,7 @@ def _diff(obs, base):
 
 # ------------------------------------------------------------------ workers
 def runner_for(role):
-    return {'server': run_server, 'server-kbd': run_server_kbd, 'server-rekey': run_server_rekey,
+    return {'server': run_server, 'server-kbd': run_server_kbd, 'server-rekey': run_server_rekey, 'server-gex': run_server_gex,
             'client': run_client, 'client-rekey': run_client_rekey}[role]
 
 
@@ -481,7 +502,7 @@ def worker(job):
     if base['ended'] and role == 'server':
         pass
     for t in types:
-        for shape, payload in shapes(t, 'client' if role == 'server' else 'server'):
+        for shape, payload in shapes(t, 'client' if role == 'server' else 'server', gex=label_role.endswith('-gex')):
             obs = runner(pos, (payload,), strict)
             outcome = 'ended:%s' % obs['exc'] if obs['ended'] else \
                 ('same' if strip(obs) == strip(base) else 'differs')
@@ -676,6 +697,9 @@ def main(tier, seed):
         # the same dialogues with a complete re-exchange after login: inside it, and everything after it
         # (what the first exchange armed -- the service request, the extension negotiation -- must not be
         # armed again by a later one)
+        for pos in [(34, 1), (32, 1), (21, 1)]:
+            for i in range(0, len(TYPES), 17):
+                jobs.append(('server-gex', pos, strict, TYPES[i:i + 17]))
         for role, poss in (('server-rekey', [(30, 2), (21, 2), (90, 1), (98, 1), 'end']),
                            ('client-rekey', [(31, 2), (21, 2), (91, 1), (99, 1), 'end'])):
             for pos in poss:
@@ -743,7 +767,7 @@ def replay(rep):
         obs = {}
         v = [(x['signature'], x['detail']) for x in acc.violations]
     else:
-        payload = dict(shapes(r['type'], sender))[r['shape']]
+        payload = dict(shapes(r['type'], sender, gex=r['role'].endswith('-gex')))[r['shape']]
         obs = runner(pos, (payload,), r['strict'])
         v = judge(r['role'].split('-')[0], pos, r['type'], r['shape'], r['strict'], obs, base)
     print(json.dumps({'replay': r, 'observation': obs, 'violations': v}, indent=1, default=repr))
